@@ -83,7 +83,7 @@ Step ==
   /\ LET T  == Traces[tid]
          e  == T.ev[l]
          m2 == Exec(mach, e.lines)
-         s2 == IF e.out = "ok" /\ e.call \in {"tool_on", "power_on"} THEN e.call ELSE sb
+         s2 == IF (e.out = "ok" \/ e.fault) /\ e.call \in {"tool_on", "power_on"} THEN e.call ELSE sb
          bad == {c \in Clauses : ~Holds(c, e, prev, mach, m2, T.meta, s2)}
      IN /\ \A c \in bad : PrintT(<<"F", tid, l, c, SigOf(c, e, prev)>>)
         /\ mach' = m2
